@@ -129,7 +129,8 @@ def run(ctx):
                 "stream with random schedules over {instruction, deliver, poll}; half with the link layer reserving each "
                 "kept qubit from the executor's pool, half without pre-reservation (any id unused at delivery time, used "
                 "must equal mapped exactly, parked responses mark nothing; also across stop + re-registration); directed: a response parked ahead of handleable ones, a request whose subroutine ended, two applications with requests towards different remote nodes and "
-                "equal purpose ids (a third of the random ones run on a stack whose purpose id is the socket id)); non-trivial = at least one qubit was "
+                "equal purpose ids, keep results delivered as qlink-interface 1.0 objects with sequence number != "
+                "physical id (a third of the random ones run on a stack whose purpose id is the socket id)); non-trivial = at least one qubit was "
                 "mapped at some point; distinct by history JSON")
     rng = ctx.rng
     drv = ctx.driver
@@ -286,7 +287,10 @@ def run(ctx):
     from harness import epr as E
     E.quiet()
 
-    def check_pending(sc, toks, tag, reserve=True, pmul=1000):
+    def check_pending(sc, toks, tag, reserve=True, pmul=1000, form10=None):
+        if form10 is not None:
+            for r_ in sc.resps:     # keep results as qlink-interface 1.0 objects (converted by the executor)
+                r_.form10 = form10
         rp, dc = P.run_case(sc, toks, drv, reserve=reserve, pmul=pmul)
         res.evaluations += 1
         res.count("mode:pending-list" + ("" if reserve else ":no-pre-reservation"))
@@ -324,6 +328,11 @@ def run(ctx):
     for pairs in (1, 2):
         for first in ("later", "earlier"):
             check_pending(*P.same_purpose_scenario(pairs, first), tag="pending-corpus", pmul=0)
+    # keep results delivered as qlink-interface 1.0 ResCreateAndKeep objects (sequence number != physical id)
+    for reserve in (True, False):
+        check_pending(*P.same_purpose_scenario(2, "later"), tag="pending-corpus", reserve=reserve, form10=True)
+        check_pending(*P.blocked_head_scenario(2, "busy"), tag="pending-corpus", reserve=reserve, form10=True)
+        check_pending(*P.parked_then_stop_scenario(1, True), tag="pending-corpus", reserve=reserve, form10=True)
     for number in (2, 3):
         for blocked in ("norecv", "busy"):
             check_pending(*P.blocked_head_scenario(number, blocked), tag="pending-corpus")
